@@ -1,19 +1,45 @@
 #!/bin/sh
-# usage: matrix.sh [seed-dir ...]   applies each seeded patch to /repo, runs the check of its property (and any extra listed in
-# seeded/<id>/also), reverts; prints one line per seed.  Never leaves /repo modified.
+# usage: matrix.sh [-j N] [seed-dir ...]
+# Applies each seeded patch (seeded/<id>/patch.diff or neutral/<id>/patch.diff) to a private scratch worktree of /repo's HEAD
+# (never to /repo itself, so that it can run while other work reads /repo), runs the check of its property (and any extra listed in
+# <dir>/also; for neutral/* every claimed check) with STV_REPO pointing at the scratch tree, and prints one line per seed.
+# The scratch worktrees live under /tmp and are removed on exit.
 cd /verif
+J=4
+if [ "$1" = "-j" ]; then J=$2; shift 2; fi
 [ $# -gt 0 ] || set -- seeded/*
-for d in "$@"; do
-  id=$(basename "$d"); prop=${id%%-*}
-  [ -f "$d/patch.diff" ] || continue
-  ( cd /repo && git apply "$OLDPWD/$d/patch.diff" ) 2>/dev/null || { echo "$id PATCH-FAILS"; continue; }
-  res=""
-  for p in $prop $(cat "$d/also" 2>/dev/null); do
-    if grep -q "\"property_id\": \"$p\"" MANIFEST.json; then
-      out=$(STV_NO_EVIDENCE=1 ./bin/check $p 2>&1); rc=$?
-      res="$res $p:exit=$rc($(echo "$out" | grep -c '^VIOLATION')v,$(echo "$out" | grep -m1 'tier=' | sed 's/.*discharged, \([0-9]*\) undecided.*/\1/')u)"
-    else res="$res $p:unclaimed"; fi
+ALL=$(python3 -c "import json; print(' '.join(c['property_id'] for c in json.load(open('MANIFEST.json'))['checks']))")
+one() {
+  d=$1; id=$(basename "$d"); prop=${id%%-*}
+  [ -f "$d/patch.diff" ] || return 0
+  W=$(mktemp -d /tmp/stv_mx.XXXXXX)
+  git -C /repo worktree add --detach -f "$W/r" HEAD >/dev/null 2>&1 || { echo "$id WORKTREE-FAILS"; rm -rf "$W"; return 0; }
+  if ! git -C "$W/r" apply "/verif/$d/patch.diff" 2>/dev/null; then
+    echo "$id PATCH-FAILS"
+  else
+    case "$d" in neutral/*|*/neutral/*) props="$ALL";; *) props="$prop $(cat "$d/also" 2>/dev/null)";; esac
+    res=""
+    for p in $props; do
+      if echo " $ALL " | grep -q " $p "; then
+        out=$(STV_REPO="$W/r" STV_CACHE="$W/cache" STV_NO_EVIDENCE=1 STV_REPLAY_DIR="$W/replays" ./bin/check $p 2>&1); rc=$?
+        res="$res $p:exit=$rc($(echo "$out" | grep -c '^VIOLATION')v,$(echo "$out" | grep -m1 'tier=' | sed 's/.*discharged, \([0-9]*\) undecided.*/\1/')u)"
+        if [ -n "$MX_VERBOSE" ] && [ $rc -ne 0 ]; then echo "$out" | grep -B7 '^VIOLATION\|ANALYSIS-BROKEN' | sed "s/^/    [$id $p] /"; fi
+      else res="$res $p:unclaimed"; fi
+    done
+    echo "$id$res"
+  fi
+  git -C /repo worktree remove --force "$W/r" >/dev/null 2>&1
+  rm -rf "$W"
+}
+if [ "$J" -le 1 ]; then
+  for d in "$@"; do one "$d"; done
+else
+  # run J seeds at a time
+  n=0
+  for d in "$@"; do
+    one "$d" &
+    n=$((n+1))
+    if [ $n -ge $J ]; then wait; n=0; fi
   done
-  ( cd /repo && git checkout -- . )
-  echo "$id$res"
-done
+  wait
+fi
